@@ -68,6 +68,15 @@ func VerifEval() {
 	verifThaw()
 	verifNote("err", err != nil)
 	want, werr := specEval(spec, doc, &specEnv{ints})
+	if verifHasParam("onlyerr") {
+		// C10 / C11 state one direction only: a specified error must be reported
+		// (a spurious error is a conformance matter of C01/C02/C09)
+		verifAssert(!werr || err != nil, prop+":specified-error-not-reported")
+		if err != nil {
+			verifAssert(got == nil, prop+":no-value-with-error")
+		}
+		return
+	}
 	verifAssert((err != nil) == werr, prop+":error-iff-specified")
 	if err != nil {
 		verifAssert(got == nil, prop+":no-value-with-error")
@@ -77,9 +86,6 @@ func VerifEval() {
 		return
 	}
 	verifAssert(verifIsJSON(got), "C16:result-is-json")
-	if verifHasParam("onlyerr") {
-		return
-	}
 	switch mode {
 	case 0:
 		verifAssert(specMatch(got, want), prop+":value")
